@@ -323,7 +323,17 @@ def build(spec, optic=None, handbuilt=None):
         ikw['radius'] = spec['image_radius']
     if spec.get('image_material'):        # ['ideal', n, k]: the image surface carries the image-space medium (immersion / eye model)
         ikw['material'] = IdealMaterial(n=spec['image_material'][1], k=spec['image_material'][2])
-    o.add_surface(index=len(spec['surfaces']) + 1, **ikw)
+    if spec.get('image_object'):
+        # the image surface enters as an explicit ImageSurface object (the class the library provides for it)
+        from optiland.surfaces.image_surface import ImageSurface
+        from optiland.geometries import Plane
+        from optiland.coordinate_system import CoordinateSystem
+        zimg = float(sum(s_['thickness'] for s_ in spec['surfaces']))
+        last = o.surface_group.surfaces[-1]
+        o.add_surface(new_surface=ImageSurface(Plane(CoordinateSystem(0.0, 0.0, zimg)), last.material_post),
+                      index=len(spec['surfaces']) + 1)
+    else:
+        o.add_surface(index=len(spec['surfaces']) + 1, **ikw)
     o.set_aperture(spec['aperture'][0], spec['aperture'][1])
     o.set_field_type(spec['field_type'])
     for f in spec['fields']:
